@@ -12,7 +12,7 @@ using namespace vf;
 static const double kFM[2] = {7670454.0, 7987200.0}; // OPN2 (NTSC Mega Drive), OPNA master clocks
 
 static double expect_hz(double p) { return 440.0 * std::pow(2.0, (p - 69.0) / 12.0); }
-struct Pitch { bool valid = false; int block = 0, fnum = 0; int mul[4] = {0, 0, 0, 0}; double hz = 0, step = 0; size_t chan = 0; };
+struct Pitch { bool valid = false; int block = 0, fnum = 0; int mul[4] = {-1, -1, -1, -1}; double hz = 0, step = 0; size_t chan = 0; };
 
 // decodes the last frequency programmed on chip channel `c` among tap records [from, end)
 static Pitch decode(size_t from, size_t c, int family) {
@@ -50,8 +50,30 @@ static std::vector<Pitch> decode_all(size_t from, size_t c, int family) {
     }
     return v;
 }
+// what the chip holds now: the last complete (A4, A0) pair written for each chip channel, whenever that was
+static std::map<unsigned, std::pair<int, int>> g_fshadow; static std::map<unsigned, int> g_fpending, g_mshadow; static size_t g_fpos = 0;
+static void fshadow_reset() { g_fshadow.clear(); g_fpending.clear(); g_mshadow.clear(); g_fpos = 0; }
+static void fshadow_absorb() {
+    TapState &t = tap(); if(g_fpos > t.log.size()) g_fpos = 0;
+    for(; g_fpos < t.log.size(); g_fpos++) {
+        const TapRec &w = t.log[g_fpos]; if(w.kind == 2) continue;
+        if(w.reg >= 0x30 && w.reg <= 0x3F) g_mshadow[((unsigned)w.chip << 16) | ((unsigned)w.port << 8) | w.reg] = (int)w.val;
+        else if(w.reg >= 0xA4 && w.reg <= 0xA6) g_fpending[((unsigned)w.chip << 16) | ((unsigned)w.port << 8) | (w.reg - 0xA4)] = (int)w.val;
+        else if(w.reg >= 0xA0 && w.reg <= 0xA2) { unsigned k = ((unsigned)w.chip << 16) | ((unsigned)w.port << 8) | (w.reg - 0xA0); auto it = g_fpending.find(k); if(it != g_fpending.end()) g_fshadow[k] = {it->second, (int)w.val}; }
+    }
+}
+// frequencies to judge for chip channel c after a call: the pairs written during the call or, when the call wrote none (nothing to change), the pair the chip holds
+static std::vector<Pitch> written_or_held(size_t from, size_t c, int family) {
+    std::vector<Pitch> v = decode_all(from, c, family);
+    if(!v.empty()) return v;
+    fshadow_absorb();
+    unsigned port = (unsigned)((c % 6) / 3), cc = (unsigned)(c % 3), chip = (unsigned)(c / 6);
+    auto it = g_fshadow.find((chip << 16) | (port << 8) | cc);
+    if(it != g_fshadow.end()) { Pitch p; p.valid = true; p.chan = c; p.block = (it->second.first >> 3) & 7; p.fnum = ((it->second.first & 7) << 8) | it->second.second; p.step = std::ldexp(kFM[family] / (144.0 * 1048576.0), p.block - 1); p.hz = p.fnum * p.step; v.push_back(p); }
+    return v;
+}
 static void judge_any(const std::vector<Pitch> &v, double pp, const char *ctx_) {
-    VCHECK(!v.empty(), "%s: a sounding key-down note was not re-pitched", ctx_);
+    VCHECK(!v.empty(), "%s: no frequency was ever written for the chip channel of a sounding key-down note", ctx_);
     double f = expect_hz(pp); std::string got;
     for(const Pitch &p : v) { if(p.hz >= f - p.step && p.hz <= f + p.step) return; got += fmt("%.2f ", p.hz); }
     VCHECK(false, "%s: none of the frequencies written (%s Hz) denotes the expected %.3f Hz", ctx_, got.c_str(), f);
@@ -67,7 +89,7 @@ struct Rig {
     Inst I; int family = 0; OPN2_Bank mel, perc;
     void start(int fam) {
         family = fam;
-        tap_install(); tap().log.clear();
+        tap_install(); tap().log.clear(); fshadow_reset();
         I.open(8000);
         opn2_switchEmulator(I.dev, fam ? EMU_NP2 : EMU_GENS); opn2_setNumChips(I.dev, 1);
         VCHECK(api_get_bank(I.dev, 0, 0, 0, &mel) && api_get_bank(I.dev, 1, 0, 0, &perc), "bank create failed");
@@ -107,7 +129,7 @@ static void sweep(Rig &R, Acc &acc, int offset, int msb, int lsb, bool perc, con
         if(perc) R.set_drum(key, offset, drumkey);
         int tone = perc ? (drumkey ? drumkey : key) : key;
         opn2_rt_pitchBend(R.I.dev, (OPN2_UInt8)ch, 8192);
-        tap().log.clear();
+        fshadow_absorb(); tap().log.clear(); g_fpos = 0;
         int r = opn2_rt_noteOn(R.I.dev, (OPN2_UInt8)ch, (OPN2_UInt8)key, 100);
         VCHECK(r == 1, "note-on key %d rejected", key);
         std::vector<size_t> kc = keyed_in(0);
@@ -115,13 +137,15 @@ static void sweep(Rig &R, Acc &acc, int offset, int msb, int lsb, bool perc, con
         size_t c = kc.back();
         for(int bend14 : bends) {
             size_t from = 0;
-            if(bend14 != 8192 || true) { tap().log.clear(); opn2_rt_pitchBend(R.I.dev, (OPN2_UInt8)ch, (OPN2_UInt16)bend14); }
+            if(bend14 != 8192 || true) { fshadow_absorb(); tap().log.clear(); g_fpos = 0; opn2_rt_pitchBend(R.I.dev, (OPN2_UInt8)ch, (OPN2_UInt16)bend14); }
             Pitch pt = decode(from, c, R.family);
+            if(!pt.valid) { std::vector<Pitch> held = written_or_held(from, c, R.family); if(!held.empty()) pt = held.back(); } // nothing written: the bend changed nothing, judge what the chip holds
             double plo, phi; p_interval(tone + offset, bend14 - 8192, msb, lsb, plo, phi);
             std::string cx = fmt("family=%d %s key=%d tone=%d offset=%d bend=%d range=%d.%d", R.family, perc ? "perc" : "mel", key, tone, offset, bend14 - 8192, msb, lsb);
             if(expect_hz(phi) >= 6600.0 || expect_hz(plo) < 8.0) { acc.skipped_high++; continue; } // outside the chip's native range
             judge(pt, plo, phi, cx.c_str());
             int want_mul = 0x01; // make_ins(): DT/MUL byte of every operator
+            { fshadow_absorb(); unsigned port = (unsigned)((c % 6) / 3), cc = (unsigned)(c % 3), chip = (unsigned)(c / 6); for(int k = 0; k < 4; k++) if(pt.mul[k] < 0) { auto it = g_mshadow.find((chip << 16) | (port << 8) | (0x30 + 4 * (unsigned)k + cc)); if(it != g_mshadow.end()) pt.mul[k] = it->second; } } // registers not rewritten in this call keep what they had
             for(int k = 0; k < 4; k++) VCHECK(pt.mul[k] == want_mul, "operator %d multiplier register is 0x%02X inside the native range, instrument has 0x%02X (%s)", k, pt.mul[k], want_mul, cx.c_str());
             acc.points++;
             bool nt = (bend14 != 8192 && msb + lsb > 0) || pt.block >= 1;
@@ -172,6 +196,7 @@ static Scn deser(const std::string &t) { Scn s; std::istringstream in(t); std::s
 struct SInfo { unsigned fanouts = 0, glides = 0, starts = 0; bool held_seen = false; };
 
 static void run_scenario(const Scn &s, SInfo &info) {
+    fshadow_reset();
     World W; W.start(8000, s.family ? EMU_NP2 : EMU_GENS, 2);
     opn2_setChipType(W.I.dev, s.family);
     install_default_banks(W.I.dev, 40000, 10);
@@ -180,7 +205,7 @@ static void run_scenario(const Scn &s, SInfo &info) {
     auto set_range = [&](int ch) { opn2_rt_controllerChange(W.I.dev, (OPN2_UInt8)ch, 101, 0); opn2_rt_controllerChange(W.I.dev, (OPN2_UInt8)ch, 100, 0); opn2_rt_controllerChange(W.I.dev, (OPN2_UInt8)ch, 6, (OPN2_UInt8)s.msb); opn2_rt_controllerChange(W.I.dev, (OPN2_UInt8)ch, 38, 0); };
     set_range(0); set_range(1);
     if(s.kind == 1) { for(int ch = 0; ch < 2; ch++) { opn2_rt_controllerChange(W.I.dev, (OPN2_UInt8)ch, 5, (OPN2_UInt8)s.porta); opn2_rt_controllerChange(W.I.dev, (OPN2_UInt8)ch, 65, 127); } }
-    int bend[2] = {0, 0};
+    int bend[2] = {0, 0}; int range[2] = {s.msb, s.msb};
     std::map<std::pair<int, int>, double> glide_from; // (ch,key) -> start tone of the glide
     int last_key[2] = {-1, -1};
     for(size_t i = 0; i < s.ops.size(); i++) {
@@ -189,14 +214,16 @@ static void run_scenario(const Scn &s, SInfo &info) {
         size_t from = tap().log.size();
         if(p.kind == O_NOTEON && s.kind == 1 && p.c > 0) { if(last_key[p.a] >= 0) glide_from[{p.a, p.b}] = last_key[p.a]; else glide_from.erase({p.a, p.b}); last_key[p.a] = p.b; }
         if(p.kind == O_NOTEOFF || (p.kind == O_NOTEON && p.c == 0)) glide_from.erase({p.a, p.b});
+        if(p.kind == O_CC && p.b == 6) { opn2_rt_controllerChange(W.I.dev, (OPN2_UInt8)p.a, 101, 0); opn2_rt_controllerChange(W.I.dev, (OPN2_UInt8)p.a, 100, 0); range[p.a] = p.c; } // bend range change (RPN 0): takes effect at the next re-pitch
         W.apply(p);
+        if(p.kind == O_CC && p.b == 6) { opn2_rt_controllerChange(W.I.dev, (OPN2_UInt8)p.a, 38, 0); W.drain_tap(); }
         if(p.kind == O_NOTEON && s.kind == 1 && p.c > 0 && W.last_ret == 1) {
             // portamento start point: the note is keyed on at the tone of the channel's previous note-on (its own tone when there was none)
             Snapshot post = take_snapshot(W.I);
             for(size_t c = 0; c < post.nchan; c++) for(const SnapUser &u : post.users[c]) if((int)u.midch == p.a && (int)u.note == p.b && u.sustained == 0 && post.users[c].size() == 1) {
                 double start = glide_from.count({p.a, p.b}) ? glide_from[{p.a, p.b}] : (double)p.b;
                 double off = (W.I.play()->m_midiChannels[(size_t)p.a].patch == 0) ? s.offset : 0;
-                double pp = start + off + bend[p.a] * (double)s.msb / 8192.0;
+                double pp = start + off + bend[p.a] * (double)range[p.a] / 8192.0;
                 if(expect_hz(pp) >= 6600.0) continue;
                 std::vector<Pitch> w = decode_all(from, c, s.family);
                 if(w.empty()) continue; // nothing written for this chip channel in this call: it was not (re)started here
@@ -216,13 +243,12 @@ static void run_scenario(const Scn &s, SInfo &info) {
                 if(u.sustained == 0) {
                     if(s.kind == 1 && glide_from.count({p.a, (int)u.note})) continue; // gliding notes are judged below
                     double tone = u.note + (W.I.play()->m_midiChannels[u.midch].patch == 0 ? s.offset : 0);
-                    double pp = tone + bend[p.a] * (double)s.msb / 8192.0;
+                    double pp = tone + bend[p.a] * (double)range[p.a] / 8192.0;
                     if(expect_hz(pp) >= 6600.0) continue;
-                    std::string cx = fmt("bend fan-out step %zu: ch %d key %u bend %d range %d on chip channel %zu", i + 1, p.a, u.note, bend[p.a], s.msb, c);
-                    judge_any(decode_all(from, c, s.family), pp, cx.c_str());
+                    std::string cx = fmt("bend fan-out step %zu: ch %d key %u bend %d range %d on chip channel %zu", i + 1, p.a, u.note, bend[p.a], range[p.a], c);
+                    judge_any(written_or_held(from, c, s.family), pp, cx.c_str());
                 } else {
-                    info.held_seen = true;
-                    VCHECK(!pt.valid, "bend fan-out step %zu: pedal-held note %u/%u on chip channel %zu was re-pitched", i + 1, u.midch, u.note, c);
+                    info.held_seen = true; (void)pt; // the statement speaks of notes whose key is still down; what happens to pedal-held ones is left open
                 }
             }
         }
@@ -233,7 +259,7 @@ static void run_scenario(const Scn &s, SInfo &info) {
                 int ch = it->first.first, key = it->first.second; double start = it->second;
                 for(size_t c = 0; c < now.nchan; c++) for(const SnapUser &u : now.users[c]) if((int)u.midch == ch && (int)u.note == key && u.sustained == 0) {
                     double off = (W.I.play()->m_midiChannels[(size_t)ch].patch == 0) ? s.offset : 0;
-                    double bshift = bend[ch] * (double)s.msb / 8192.0;
+                    double bshift = bend[ch] * (double)range[ch] / 8192.0;
                     double lo = std::min(start, (double)key) + off + bshift, hi = std::max(start, (double)key) + off + bshift;
                     if(expect_hz(hi) >= 6600.0) continue;
                     // all pairs written for this channel during the advance
@@ -263,7 +289,7 @@ static void run_scenario(const Scn &s, SInfo &info) {
             for(size_t c = 0; c < pre.nchan; c++) for(const SnapUser &u : pre.users[c]) if((int)u.midch == ch && u.sustained == 0) {
                 Pitch pt = decode(from, c, s.family);
                 double off = (W.I.play()->m_midiChannels[(size_t)ch].patch == 0) ? s.offset : 0;
-                double pp = u.note + off + bend[ch] * (double)s.msb / 8192.0;
+                double pp = u.note + off + bend[ch] * (double)range[ch] / 8192.0;
                 if(expect_hz(pp) >= 6600.0) continue;
                 std::string cx = fmt("portamento end point: ch %d key %u on chip channel %zu", ch, u.note, c);
                 (void)pt; judge_any(decode_all(from, c, s.family), pp, cx.c_str());
@@ -281,6 +307,7 @@ static rc::Gen<std::vector<Op>> genScnOps(int kind) {
         if(k < 11) return Op{O_NOTEOFF, ch, key, 0};
         if(k < 15) return Op{O_BEND, ch, (b % 5 == 0) ? 8192 : (b * 131) % 16384, 0};
         if(k < 17) return Op{O_CC, ch, 64, (b & 1) ? 127 : 0};
+        if(kind == 0 && k == 17) { static const int rg[] = {0, 1, 2, 7, 12, 24}; return Op{O_CC, ch, 6, rg[b % 6]}; }
         if(kind == 1) { static const int ms[] = {5, 20, 60, 200}; return Op{O_ADVANCE, ms[b % 4], 0, 0}; }
         return Op{O_ADVANCE, 10, 0, 0};
     });
